@@ -84,6 +84,11 @@ CHECKS = {
          "For the six built-in force fields, the repository's user pair and 40-300 generated user DAT/names pairs, TLC replays LoadRow/Section on the files' own content (independent readers; regex match sets by Python's re) and requires the real map to be identical entry by entry (charge, radius, native names); then each atom of the generated corpus (every residue type and named variant at every position, neutral termini, DNA/RNA strands, waters, user force fields incl. two different pairs in one process) must use the state-qualified key the generator's ground truth prescribes, be written with exactly the row's charge and radius, and be omitted and reported when the map has no entry.",
          "Python's re and pdb2pqr's topology loader (canonical names) are trusted; comparison at the 4 decimals written; HIS tautomer keys and CYS in real structures are not asserted.",
          "DESIGN.md 6/C01", ["ForceField", "ForceFieldTrace"]),
+ "C03": ("model_checking",
+         "TLA+ specs Lifecycle (atom ledger: which stage may create / delete atoms of which origin; kept flips as swaps) and OptClasses (name-set effect of the optimisation classes): TLC exhaustive on OptClasses; every corpus run recorded at the level of add/remove/rename_atom and validated by TLC (LifecycleTrace) incl. end-of-run partition, written-is-matched, topology-exact and input-count clauses",
+         "TLC checks NoTempAfterComplete/FinalSetIsTopology/InputHeavyConserved over all try_* sequences of the optimisation classes; each real run's primitive operations are replayed through the ledger spec, which rejects a creation or deletion that is illegal for its stage and origin, and at the end judges that every heavy input atom of a recognised residue is present (or its flipped copy, or reported, or the 5' phosphate), names are unique, no LP/FLIP placeholder remains, matched and unassigned lists partition the model, the PQR lines are exactly the matched atoms in order, fully parameterised residues carry exactly their patched topology's atoms, and as many heavy atoms entered the model as the input has records.",
+         "Identity = Python object; report = log record before the deletion; topology oracle = the residue's patched reference object of the current tree (HIS per tautomer; one of the two acid hydrogens); corpus = generated peptides/environments/strands/complexes and repository structures; wrappers are harness code.",
+         "DESIGN.md 6/C03", ["Lifecycle", "LifecycleTrace", "OptClasses"]),
 }
 
 NOT_YET = "check not built yet (build round in progress); planned per DESIGN.md section 6"
